@@ -345,9 +345,9 @@ def run(ctx):
                           heap=[(h["ty"], h["kind"], len(h["children"])) for h in desc["heap"]]),
                      nontrivial=bool(snaps and snaps[0].var_lookup), bucket="%s friendly=%s" % (case["frame_type"], friendly))
             if raised is not None or len(snaps) != n_act:
-                ctx.fail("%d snapshot(s) produced for %d tracepoint(s) on the line (%r)" % (len(snaps), n_act, raised), desc, tag="no-snapshot")
-                continue
-            for k, snap in enumerate(snaps):
+                e1.no_snapshot(ctx, desc, raised)       # the delivered ones are still examined
+            for snap in snaps:
+                k = int(str(snap.tracepoint.id).rsplit("-", 1)[-1]) if str(snap.tracepoint.id).startswith("tp-") else 0
                 dk = dict(desc, tracepoint="%d of %d on the line" % (k + 1, n_act)) if n_act > 1 else desc
                 try:
                     obs = e1.observe(snap, heap)
@@ -361,6 +361,7 @@ def run(ctx):
         live_cases(ctx, 120 if ctx.thorough else 24)
     finally:
         e1.restore_clock(saved)
+    e1.too_many_skipped(ctx, ctx.evaluations)
     ctx.correspond("collector", e1.IMPORTS, "snap_case", "check_snap_case", lits, cj, shard=60)
     ctx.correspond("frames", ["Base", "Config", "Frames"], "frames_case", "check_frames_case", flits, fcj, shard=100)
 
